@@ -30,6 +30,8 @@ func checkC01(ctx *Ctx) *Result {
 	r.rule("R1.9", "splitAtCommonSuffix removes the same number of trailing bytes from both arguments and returns that many trailing bytes of the shorter one, comparing byte by byte from the end and stopping at the first difference", 4)
 	insertRestructuring(ctx, r)
 	commonSuffixRule(ctx, r)
+	r.rule("R1.10", "every slice that is binary-searched (node.edges, node.schemes, node.ports[i], SortedSet.elems) is sorted whenever it is written: inserted at its own search index, sorted after its last change and before/after being stored, a sub-slice or copy of a sorted one, or a single element", 4)
+	sortedDiscipline(ctx, r, "R1.10")
 	// ---- R1.1 -----------------------------------------------------------
 	rt, ok := requestTableGuards(ctx, r)
 	if ok {
@@ -1001,4 +1003,110 @@ func commonSuffixRule(ctx *Ctx, r *Result) {
 	if nRet < 4 {
 		r.undecided("R1.9", "splitAtCommonSuffix", fmt.Sprintf("only %d return segments", nRet))
 	}
+}
+
+// sortedDiscipline implements R1.10.
+func sortedDiscipline(ctx *Ctx, r *Result, rule string) {
+	p := ctx.P
+	searchedField := map[string]bool{"edges": true, "schemes": true, "elems": true}
+	isSearched := func(addr *Term) bool {
+		switch addr.Op {
+		case "faddr":
+			return searchedField[addr.Name]
+		case "iaddr":
+			b := addr.Args[0]
+			return b.Op == "load" && b.Args[0].Op == "faddr" && b.Args[0].Name == "ports"
+		}
+		return false
+	}
+	writers := map[string]bool{}
+	for _, fs := range p.fieldWriters(pkgOrigins, "node") {
+		for _, f := range fs {
+			writers[f] = true
+		}
+	}
+	for _, fs := range p.fieldWriters(pkgUtil, "SortedSet") {
+		for _, f := range fs {
+			writers[f] = true
+		}
+	}
+	// element stores into n.ports[i] are IndexAddr stores: scan for them too
+	for _, fn := range p.Funcs {
+		for _, b := range fn.Blocks {
+			for _, ins := range b.Instrs {
+				if st, ok := ins.(*ssa.Store); ok {
+					if ia, ok := st.Addr.(*ssa.IndexAddr); ok {
+						if u, ok := ia.X.(*ssa.UnOp); ok {
+							if fa, ok := u.X.(*ssa.FieldAddr); ok {
+								if pt, ok := fa.X.Type().Underlying().(*types.Pointer); ok && isNamed(pt.Elem(), pkgOrigins, "node") {
+									writers[funcName(fn)] = true
+								}
+							}
+						}
+					}
+				}
+			}
+		}
+	}
+	n := 0
+	for _, fn := range p.Funcs {
+		if !writers[funcName(fn)] {
+			continue
+		}
+		x := p.NewExec(p.RadixPolicy)
+		paths := x.Summarize(fn)
+		r.fn(funcName(fn))
+		bad := strings.Join(x.Problems, ";")
+		stores := 0
+		for _, pa := range paths {
+			sorted := map[string]bool{}
+			pending := map[string]*Term{}
+			before := map[string]string{} // addr -> key of the location's value before the store
+			for _, e := range pa.Effects[pa.PreEff:] {
+				switch {
+				case e.Kind == "call" && (e.Name == "slices.Sort" || e.Name == "sort.Strings" || e.Name == "sort.Ints") && len(e.Args) == 1:
+					sorted[e.Args[0].Key()] = true
+				case e.Kind == "store" && isSearched(e.Args[0]):
+					stores++
+					pending[e.Args[0].Key()] = e.Args[1]
+					load := &Term{Op: "load", Args: []*Term{e.Args[0]}}
+					if _, seen := before[e.Args[0].Key()]; !seen {
+						before[e.Args[0].Key()] = load.Key()
+					}
+				}
+			}
+			for ak, v := range pending {
+				if sorted[v.Key()] || shapeSorted(v, before[ak], searchedField) {
+					continue
+				}
+				bad = fmt.Sprintf("%s is left holding %s, which is neither sorted afterwards nor sorted by construction: a later binary search may miss an element", ak, v.Key())
+			}
+		}
+		n += stores
+		if stores > 0 {
+			r.check(bad == "", rule, funcName(fn), p.Pos(fn.Pos()), bad, stores)
+		}
+	}
+	if n < 6 {
+		r.undecided(rule, "searched slices", fmt.Sprintf("only %d stores to binary-searched slices found", n))
+	}
+}
+
+func shapeSorted(v *Term, beforeKey string, searchedField map[string]bool) bool {
+	switch {
+	case v.Op == "const" && (v.Name == "nil" || v.Name == "zero"):
+		return true
+	case v.Op == "zero":
+		return true
+	case v.Op == "lit" && len(v.Args) <= 1:
+		return true
+	case v.Op == "load" && v.Args[0].Op == "faddr" && searchedField[v.Args[0].Name]:
+		return true // copy of another node's (sorted) slice
+	case v.Op == "call" && v.Name == "origins.deleteSameSign":
+		return true // sub-slice of a sorted slice
+	case v.Op == "call" && strings.HasPrefix(v.Name, "origins.insert") && len(v.Args) == 3:
+		s, i, x := v.Args[0], v.Args[1], v.Args[2]
+		return s.Key() == beforeKey && i.Key() == "call:slices.BinarySearch("+s.Key()+", "+x.Key()+")#0"
+	}
+	return false
 }
